@@ -5,7 +5,9 @@ cd /repo || exit 2
 if ! git diff --quiet -- . ':!verif_contracts_*'; then echo "repo has uncommitted source changes"; exit 2; fi
 git apply "$PATCH" || { echo "patch does not apply"; exit 2; }
 for p in "$@"; do
+  cp /verif/evidence/$p.json /tmp/evidence_$p.bak 2>/dev/null
   out=$(cd /verif && ./check.sh $p 2>&1)
+  cp /tmp/evidence_$p.bak /verif/evidence/$p.json 2>/dev/null
   v=$(echo "$out" | grep -c '^VIOLATION')
   echo "  $p: violations=$v $(echo "$out" | grep '^VIOLATION' | sed 's/.*replay=\/verif\/replays\///' | tr '\n' ' ' | cut -c1-300)"
 done
